@@ -102,7 +102,8 @@ Inductive call :=
   | Exists (p : parg) | IsFile (p : parg) | IsDir (p : parg) | IsEmpty (p : parg) | Size (p : parg) | Hash (p : parg)
   | Rm (p : parg) | Clean (p : parg)
   | Copy (p q : parg) | CopyToFile (p q : parg) | CopyToDir (p q : parg) | Move (p q : parg)
-  | RelPath (p : parg).
+  | RelPath (p : parg)
+  | MoveBetween (p q : parg) | CreateFile (p : parg) | OpenCreate (p : parg).
 
 Definition parg_eqb (a b : parg) : bool :=
   match a, b with
@@ -356,6 +357,42 @@ Definition r_move t a b :=
 Definition r_relpath (t : tree) a :=
   match a with PEmpty => Out (RErr EOther) t | P p _ => Out (RNames [p]) t end.
 
+(* CreateFile (files.go:299-305): create or truncate; the parent must exist (POSIX creat) *)
+Definition r_createfile t a :=
+  match a with
+  | PEmpty => Out (RErr ENotFound) t
+  | P p tr =>
+      if through_file t p || tr || is_dir t p then Unconstrained
+      else if is_dir t (parent p) then Out ROk (set_file t p []) else Out (RErr ENotFound) t
+  end.
+
+(* OpenFile(O_WRONLY|O_CREATE): a missing file is created (the parent must exist), an existing one is left as it is *)
+Definition r_opencreate t a :=
+  match a with
+  | PEmpty => Out (RErr ENotFound) t
+  | P p tr =>
+      if through_file t p || tr || is_dir t p then Unconstrained
+      else if is_file t p then Out ROk t
+      else if is_dir t (parent p) then Out ROk (set_file t p []) else Out (RErr ENotFound) t
+  end.
+
+(* MoveBetweenFS with the same file system on both sides (files.go): Copy, then removal of the source — except that what is
+   moved into the directory that already contains it stays where it is (mv: "are the same file"). *)
+Definition r_movebetween t a b :=
+  if parg_eqb a b then Out ROk t else
+  match a, b with
+  | _, PEmpty => Out (RErr EUndefined) t
+  | PEmpty, _ => Out (RErr ENotFound) t
+  | P [] _, _ => Unconstrained
+  | P s str, P d dtr =>
+      if arg_conflict t s str || arg_conflict t d dtr then Unconstrained
+      else if exists_ t s && is_dir t d && path_eqb (d ++ [base s]) s then Out ROk t
+      else match r_copy t a b with
+           | Out ROk t1 => Out ROk (remove_sub t1 s)
+           | o => o
+           end
+  end.
+
 Definition exec (t : tree) (c : call) : outcome :=
   match c with
   | Mkdir a => r_mkdir t a | Touch a => r_touch t a | Write a c => r_write t a c | Read a => r_read t a
@@ -365,6 +402,7 @@ Definition exec (t : tree) (c : call) : outcome :=
   | Size a => r_size t a | Hash a => r_hash t a | Rm a => r_rm t a | Clean a => r_clean t a
   | Copy a b => r_copy t a b | CopyToFile a b => r_copytofile t a b | CopyToDir a b => r_copytodir t a b
   | Move a b => r_move t a b | RelPath a => r_relpath t a
+  | MoveBetween a b => r_movebetween t a b | CreateFile a => r_createfile t a | OpenCreate a => r_opencreate t a
   end.
 
 (* ---------- well-formed trees: the ancestors of every entry are directories (as in the dump of a real file system) ---------- *)
@@ -379,9 +417,9 @@ Definition arg_path (a : parg) : list path := match a with PEmpty => [] | P p _ 
 (* what a call may touch: its destination and, for move / rm / clean, its source *)
 Definition roots (c : call) : list path :=
   match c with
-  | Mkdir a | Touch a | Write a _ | Rm a | Clean a => arg_path a
+  | Mkdir a | Touch a | Write a _ | Rm a | Clean a | CreateFile a | OpenCreate a => arg_path a
   | Copy _ b | CopyToFile _ b | CopyToDir _ b => arg_path b
-  | Move a b => arg_path a ++ arg_path b
+  | Move a b | MoveBetween a b => arg_path a ++ arg_path b
   | _ => []
   end.
 Definition outside (rs : list path) (q : path) : bool := forallb (fun r => negb (is_prefix r q)) rs.  (* not at or below a root *)
